@@ -17,6 +17,8 @@ def M2.mulMod (p : Nat) (x y : M2) : M2 :=
   ⟨(x.a * y.a + x.b * y.c) % p, (x.a * y.b + x.b * y.d) % p,
    (x.c * y.a + x.d * y.c) % p, (x.c * y.b + x.d * y.d) % p⟩
 
+def M2.hadMod (p : Nat) (x y : M2) : M2 := ⟨(x.a * y.a) % p, (x.b * y.b) % p, (x.c * y.c) % p, (x.d * y.d) % p⟩
+
 def chunk4 : List Nat → List M2
   | a :: b :: c :: d :: rest => ⟨a, b, c, d⟩ :: chunk4 rest
   | _ => []
@@ -106,6 +108,18 @@ def opsC12 : List (String × Handler) := [
         else
           let out := scanOutBuf o w cells
           return fmtNats (ov :: out.toList.flatMap fun m => [m.a, m.b, m.c, m.d])
+      | _ => throw "arity"),
+  -- scan.api <cummul|cumprod> <0|1|none> p a b c d …   (a wrapper call on one fibre of 2×2 matrices over Z/p:
+  --   `*` = element-wise product, `@` = matrix product; `none` = the `left` argument omitted)
+  ("scan.api", fun ts => do
+      match ts with
+      | api :: left :: p :: rest =>
+        let api ← (match api with | "cummul" => pure Api.cummul | "cumprod" => pure Api.cumprod | _ => throw "bad-api")
+        let left ← (match left with | "none" => pure none | "0" => pure (some false) | "1" => pure (some true) | _ => throw "bad-left")
+        let p ← nat p
+        let ms := chunk4 (← nats rest)
+        let out := runApi (M2.hadMod p) (M2.mulMod p) api left ms
+        return fmtNats (out.flatMap fun m => [m.a, m.b, m.c, m.d])
       | _ => throw "arity"),
   -- scan.addrs base dim rank shape… strides…  → F L then the address of every element, fibre-major
   ("scan.addrs", fun ts => do
